@@ -239,7 +239,7 @@ func runC12(w *core.W) {
 	}
 	w.ExhaustivePart(fmt.Sprintf("all strings of 1..%d symbols over {0 1 9 . e E + - _ x}", kmax))
 	r := w.RNG("long")
-	for i, n := 0, w.Pick(20000, 300000); i < n; i++ {
+	for i, n := 0, w.Pick(80000, 900000); i < n; i++ {
 		s := randLiteral(r)
 		c12Lit(w, &LitCase{Lit: s})
 		if i%4 == 0 {
